@@ -111,7 +111,11 @@ def check(prog, rep):
 
     for key, node in sorted(containers.items()):
         ws = writers.get(key, [])
-        import_time = all(_only_called_at_import(prog, w) for w in ws)
+        when = [_written_when(prog, w) for w in ws]
+        import_time = all(x == "import" for x in when)
+        if ws and not import_time and not any(x == "run" for x in when):
+            rep.undecided(f"R14.1 {key[0]}.{key[1]}: written by {[w.qual.split(':')[1] for w, x in zip(ws, when) if x is None]}, for which neither an import-time-only use (decorator / registration) nor a caller on a run-time path was found")
+            continue
         if ws and not import_time and not consulted(key):
             rep.ob("R14.1", f"{key[0]}.{key[1]}", True, f"module-level container written at run time by {[w.name for w in ws]} but never consulted by package code (counters / diagnostics)", loc=f"{prog.modules[key[0]].rel}:{node.lineno}", detail="module-container", trivial=True)
             continue
@@ -180,15 +184,21 @@ def check(prog, rep):
                                loc=f"{fi.module.rel}:{n.lineno}", detail=f"identity-test-on-name-key:{src(n)[:30]}")
         # ------------------------------------------------------------------ R14.3 purity
         reach = cg.reachable([fi])
-        glob = []
+        glob, unsure = [], []
         for f in reach:
             for n in walk_local(f.node):
                 if isinstance(n, ast.Global):
                     glob.append((f, n))
                 if isinstance(n, ast.Name) and isinstance(n.ctx, ast.Load) and (f.module.name, n.id) in containers and n.id not in local_assignments(f.node):
                     ws = writers.get((f.module.name, n.id), [])
-                    if ws and not all(_only_called_at_import(prog, w) for w in ws):
+                    when_ = [_written_when(prog, w) for w in ws]
+                    if any(x == "run" for x in when_):
                         glob.append((f, n))
+                    elif not all(x == "import" for x in when_):
+                        unsure.append((f, n))
+        if unsure and not glob:
+            rep.undecided(f"R14.3 {fi.name}: {unsure[0][0].name} reads module container `{unsure[0][1].id}`, whose writers could not be placed at import time or run time")
+            continue
         rep.ob("R14.3", fi.name, not glob, f"{len(reach)} functions reachable from the cached function read no run-time-mutable module state" if not glob else f"{glob[0][0].name} (reachable from the cached function) uses mutable module state at line {glob[0][1].lineno}", loc=fi.loc, detail="pure")
         # id() components are safe only if the object itself is also part of the key (kept alive by the entry)
         for c in prog.functions.values():
@@ -209,6 +219,37 @@ def check(prog, rep):
         "from them read no run-time-mutable module state. Eviction neutrality follows."
     )
     rep.assume("user code registering gradient rules at run time is outside the property")
+
+
+def _written_when(prog, w, _seen=None):
+    """'import' -- the writer only runs while modules are imported (a registration decorator, or a helper whose every
+    caller is one); 'run' -- it, or a function that calls it (transitively, calls resolved by name), is part of the
+    package's run-time surface: a public function / method, or a memoised worker; None -- neither was established."""
+    from ..inline import call_sites
+    seen = _seen if _seen is not None else set()
+    if w.qual in seen:
+        return None
+    seen.add(w.qual)
+    if _only_called_at_import(prog, w):
+        return "import"
+    # the registrar itself: a function whose nested import-time decorator is what it hands out
+    if any(g.parent is w and _only_called_at_import(prog, g) for g in prog.functions.values()):
+        return "import"
+    decos = [dotted(d.func if isinstance(d, ast.Call) else d) or "" for d in getattr(w.node, "decorator_list", [])]
+    if any(d.split(".")[-1] in ("lru_cache", "cache") for d in decos):
+        return "run"
+    public = not w.name.startswith("_") or (w.name.startswith("__") and w.name.endswith("__"))
+    if public and w.parent is None and (w.cls is None or not w.cls.name.startswith("_")):
+        return "run"
+    sites = [c_fi for c_fi, _c in call_sites(prog, w, "optyx") if c_fi is not w]
+    if not sites:
+        return None
+    verdicts = [_written_when(prog, c_fi, seen) for c_fi in sites]
+    if any(v == "run" for v in verdicts):
+        return "run"
+    if all(v == "import" for v in verdicts):
+        return "import"
+    return None
 
 
 def _only_called_at_import(prog, w):
